@@ -973,6 +973,8 @@ def shrink(c):
                 break
     if c["op"] in ("nb", "dc"):
         cand = dict(best, nb=[r[:1] for r in best["nb"]])
+        if cand.get("conf") == "lattice":        # the trimmed table no longer has the symmetric shell
+            cand["conf"] = "random"
         if cand["nb"] != best["nb"] and ok(cand):
             best = cand
     if c["op"] == "dec" and best.get("save"):
